@@ -256,7 +256,7 @@ Definition f32_texts (full : bool) : list string :=
    else []).
 
 Definition text_vals (full : bool) : list string :=
-  [""; "a"; "1"; "abc"] ++
+  [""; "a"; "1"; "abc"; "nil"] ++          (* "nil" is a text like any other for this inspector: it has no nil operand *)
   (if full then ["ab"; "abd"; "b"; ch 255 ++ ch 0 ++ "z"; "true"; "100"; "1.4"; ch 127; ch 128; "A"] else []).
 
 Definition vals (full : bool) (k : skind) : list sval :=
@@ -298,19 +298,19 @@ Definition render_val (v : sval) : list string :=
 
 Definition operands (full : bool) (f : family) : list string :=
   match f with
-  | FamBool => ["true"; "false"; "1"; "0"; ""; "yes"] ++ (if full then ["t"; "F"; "TRUE"; "True"; "tRuE"; "2"; "FALSE"] else [])
+  | FamBool => ["true"; "false"; "1"; "0"; ""; "yes"; "nil"] ++ (if full then ["t"; "F"; "TRUE"; "True"; "tRuE"; "2"; "FALSE"] else [])
   | FamSigned =>
-    ["0"; "1"; "-1"; "127"; "0x7f"; "9223372036854775807"; "9223372036854775808"; ""; "abc"; "1.5"] ++
+    ["0"; "1"; "-1"; "127"; "0x7f"; "9223372036854775807"; "9223372036854775808"; ""; "abc"; "1.5"; "nil"] ++
     (if full then ["100"; "128"; "-128"; "-129"; "0b101"; "0o17"; "017"; "1_000"; "-9223372036854775808"; "-9223372036854775809";
                    "+5"; " 1"; "0x"; "1__0"; "true"; "32767"; "32768"; "2147483647"; "-2147483648"; "2147483648"] else [])
   | FamUnsigned =>
-    ["0"; "1"; "255"; "0xff"; "18446744073709551615"; "18446744073709551616"; "-1"; ""; "abc"; "1.5"] ++
+    ["0"; "1"; "255"; "0xff"; "18446744073709551615"; "18446744073709551616"; "-1"; ""; "abc"; "1.5"; "nil"] ++
     (if full then ["256"; "65535"; "65536"; "4294967295"; "4294967296"; "+1"; "0b11"; "1_0"; "9223372036854775808"; "-0"] else [])
   | FamFloat =>
-    ["0"; "1"; "1.4"; "1.0005"; "nan"; "inf"; "1e310"; ""; "abc"; "1.5.2"] ++
+    ["0"; "1"; "1.4"; "1.0005"; "nan"; "inf"; "1e310"; ""; "abc"; "1.5.2"; "nil"] ++
     (if full then ["1e400"; "-0"; "1e3"; "0.1"; "-inf"; ".5"; "5."; "1e"; "+1.5"; "-1.4"; "1.3999999999999999"; "1.4000000000000001";
                    "1.399999976158142"; "1.4000000059604645"; "NaN"; "Infinity"; "1e-400"; "9223372036854775808"; "100"] else [])
-  | FamText => [""; "a"; "abc"; "b"; "1"] ++ (if full then ["ab"; "abd"; ch 255; ch 128; "A"; "abc" ++ ch 0] else [])
+  | FamText => [""; "a"; "abc"; "b"; "1"; "nil"] ++ (if full then ["ab"; "abd"; ch 255; ch 128; "A"; "abc" ++ ch 0] else [])
   | FamOther => ["1"; ""; "abc"]
   end.
 
